@@ -279,7 +279,7 @@ func init() {
 		// harvest records from generated files until every type is represented (or the budget is spent)
 		for i := 0; i < 400; i++ {
 			gr := r.Fork(uint64(1000000 + i))
-			o := gen.Opts{Categories: gen.AllCategories(), MaxBatches: 3, MaxEntries: 3, NonASCII: i%3 == 0, FullWidth: i%4 == 0}
+			o := gen.Opts{IATCorrections: true, Categories: gen.AllCategories(), MaxBatches: 3, MaxEntries: 3, NonASCII: i%3 == 0, FullWidth: i%4 == 0}
 			switch i % 5 {
 			case 0:
 				o.SECs = []string{ach.ADV}
